@@ -105,6 +105,10 @@ def run(ctx):
                 back = to_simple(nrm[1])
                 if probs:
                     key = "normal-shape:%s" % probs[0][0]
+                    if "range" in probs[0][1] and "over" in probs[0][1]:
+                        # a call inside a window frame offset: windows.py simplifies the offset inside the parse action and
+                        # the result is simplified again with the rest of the statement (one-element `args` unwrapped)
+                        key += ":frame-offset"
                     rep.finding(key, "parse(%r, calls=normal_op): %s at %s" % (st["sql"][:120], probs[0][0], list(probs[0][1])),
                                 {"sql": st["sql"], "dialect": dialect, "all_columns": ac, "null_none": bool(nkw), "what": "normal"})
                 elif C.cdump(C.canon(back)) != C.cdump(C.canon(base[1])):
@@ -144,9 +148,11 @@ def check_fmap(ctx, R, st, dialect, ac, nkw, nrm, fm):
         rep.finding("fmap:acceptance", "%r rejected with fmap=%s (%s)" % (st["sql"][:120], fm, got[1]),
                     {"sql": st["sql"], "dialect": dialect, "all_columns": ac, "null_none": bool(nkw), "what": "fmap", "fmap": fm})
         return
-    if "$obj" in C.cdump(C.canon(nrm[1])):
-        # the normal form itself is damaged (known finding normal_op:sole-null-arg): fall back to renaming the
-        # keys of the default tree that are operation names of this statement
+    shape = []
+    normal_shape_ok(nrm[1], shape)
+    if "$obj" in C.cdump(C.canon(nrm[1])) or shape:
+        # the normal form itself is damaged (known findings normal_op:sole-null-arg, normal-shape:…:frame-offset): fall
+        # back to renaming the keys of the default tree that are operation names of this statement
         base = R.parse_raw(st["sql"], dialect, all_columns=ac, **nkw)
         want = rename_keys(base[1], fm)
     else:
